@@ -209,6 +209,9 @@ Definition right_operand_ex (t form : string) : option (ty * bool * bool) :=
     if String.eqb t "header" then None else Some (declared_type t, false, true)
   else if String.eqb form "ifexp" then
     match base_operand t "local" with Some (a, _) => Some (a, false, true) | None => None end
+  else if mem_str form ["dinit"; "dexpr"; "copy"; "compound"; "default"; "inif"] then
+    (* a local variable, however it got its value, is an identifier of its declared type *)
+    if String.eqb t "header" then None else Some (declared_type t, false, true)
   else None.
 
 Definition right_operand (t form : string) : option (ty * bool) :=
